@@ -15,9 +15,10 @@ What is mirrored, function by function (rs/anda_object_store/src/encryption.rs):
   derive_gcm_nonce                                            → deriveNonce (BitVec), deriveNonceBytes
   seal_metadata / verify_metadata                             → sealMeta / verifyMetadata
   put_opts (chunked encryption), multipart put_part/complete  → writeObject / mpPutPart / mpComplete
-  read_chunk_size, get_opts range arithmetic                  → readChunkSize, resolveGet, getPlan
+  read_chunk_size, GetRange::as_range, get_opts arithmetic    → readChunkSize, asRange, rrEnd, getPlan
   create_decryption_stream                                    → drain / finish / runSegs / decStream
-  get_ranges (span cache)                                     → getRangesLoop
+  get_ranges (span cache)                                     → spanOf, validateRanges, openSpan, getRangesLoop
+  head (get_opts with head) / listing entry                   → headObject / listEntry
 AES-256-GCM is an abstract `AEAD` (two functions); the theorems take its properties as hypotheses.
 -/
 import AndaVerif.Gen.EncAad
@@ -564,11 +565,13 @@ def segment : List Nat → Bytes → List Bytes
   | [], bs => [bs]
   | n :: ns, bs => bs.take n :: segment ns (bs.drop n)
 
-/-- `get_opts` consumed to the end: verified metadata, plan, backend request, decryption stream.
-`resegment` is the (arbitrary) way the backend cuts its response into stream items. -/
-def getObject (A : AEAD) (strict : Bool) (storeChunk : Nat) (B : Backend) (loc : Bytes)
-    (range : Option GetRange) (head : Bool) (resegment : Bytes → List Bytes) : Except RErr GetPlan × SRes :=
-  match B.metaDoc loc with
+/-- One iteration of the `loop` in `get_opts`, consumed to the end, for the document `doc` the iteration
+resolved (from the cache, from a load, or from the re-resolve after NotFound): verify, plan, backend
+request, decryption stream. `resegment` is the (arbitrary) way the backend cuts its response. -/
+def getWith (A : AEAD) (strict : Bool) (storeChunk : Nat) (B : Backend) (loc : Bytes)
+    (range : Option GetRange) (head : Bool) (resegment : Bytes → List Bytes)
+    (doc : Except RErr Meta) : Except RErr GetPlan × SRes :=
+  match doc with
   | .error e => (.error e, .fail e [])
   | .ok m =>
     match verifyMetadata A strict loc m with
@@ -586,11 +589,30 @@ def getObject (A : AEAD) (strict : Bool) (storeChunk : Nat) (B : Backend) (loc :
           | .ok bytes =>
             (.ok plan, decStream A ⟨m, c, plan.startIdx, plan.startOffset⟩ plan.len (resegment bytes))
 
-/-- `get_ranges`. -/
-def getRanges (A : AEAD) (strict : Bool) (storeChunk : Nat) (B : Backend) (loc : Bytes)
-    (ranges : List (Nat × Nat)) : Except RErr (List Bytes × List (Nat × Nat)) :=
+/-- `get_opts` on an instance whose metadata cache does not hold the key (cold): the document is loaded
+from the backend. -/
+def getObject (A : AEAD) (strict : Bool) (storeChunk : Nat) (B : Backend) (loc : Bytes)
+    (range : Option GetRange) (head : Bool) (resegment : Bytes → List Bytes) : Except RErr GetPlan × SRes :=
+  getWith A strict storeChunk B loc range head resegment (B.metaDoc loc)
+
+/-- `get_opts` on a long-lived (warm) instance: the first iteration runs on whatever document the cache
+holds (`cached`; nothing is assumed about it); when the payload it points at is gone (NotFound from the
+backend) the document is re-resolved from the backend once (`refresh_meta`) and the loop runs again —
+**including `verify_metadata`** — on the re-read document. -/
+def getObjectWarm (A : AEAD) (strict : Bool) (storeChunk : Nat) (B : Backend) (loc : Bytes)
+    (range : Option GetRange) (head : Bool) (resegment : Bytes → List Bytes) (cached : Option Meta) :
+    Except RErr GetPlan × SRes :=
+  match cached with
+  | none => getObject A strict storeChunk B loc range head resegment
+  | some m0 =>
+    let r := getWith A strict storeChunk B loc range head resegment (.ok m0)
+    if r.2 = .fail .notFound [] then getObject A strict storeChunk B loc range head resegment else r
+
+/-- One iteration of the `'retry` loop of `get_ranges` for the document the iteration resolved. -/
+def getRangesWith (A : AEAD) (strict : Bool) (storeChunk : Nat) (B : Backend) (loc : Bytes)
+    (ranges : List (Nat × Nat)) (doc : Except RErr Meta) : Except RErr (List Bytes × List (Nat × Nat)) :=
   if ranges.isEmpty then .ok ([], []) else
-  match B.metaDoc loc with
+  match doc with
   | .error e => .error e
   | .ok m =>
     match verifyMetadata A strict loc m with
@@ -601,6 +623,21 @@ def getRanges (A : AEAD) (strict : Bool) (storeChunk : Nat) (B : Backend) (loc :
         match B.payload loc m.generation with
         | none => .error .notFound
         | some payload => getRangesLoop A m (readChunkSize storeChunk m) payload ranges ⟨0, 0, []⟩ []
+
+/-- `get_ranges` (cold instance). -/
+def getRanges (A : AEAD) (strict : Bool) (storeChunk : Nat) (B : Backend) (loc : Bytes)
+    (ranges : List (Nat × Nat)) : Except RErr (List Bytes × List (Nat × Nat)) :=
+  getRangesWith A strict storeChunk B loc ranges (B.metaDoc loc)
+
+/-- `get_ranges` on a warm instance, with the NotFound re-resolve (`continue 'retry`). -/
+def getRangesWarm (A : AEAD) (strict : Bool) (storeChunk : Nat) (B : Backend) (loc : Bytes)
+    (ranges : List (Nat × Nat)) (cached : Option Meta) : Except RErr (List Bytes × List (Nat × Nat)) :=
+  match cached with
+  | none => getRanges A strict storeChunk B loc ranges
+  | some m0 =>
+    match getRangesWith A strict storeChunk B loc ranges (.ok m0) with
+    | .error .notFound => getRanges A strict storeChunk B loc ranges
+    | r => r
 
 /-- A listing entry (`listing_entry` + the verifying policy): `(size, e_tag, committed_at_ms)` of the
 verified document; the payload object is not touched. -/
@@ -613,11 +650,11 @@ def listEntry (A : AEAD) (strict : Bool) (B : Backend) (loc : Bytes) :
     | .error e => .error e
     | .ok _ => .ok (m.size, m.eTag, m.committedAtMs)
 
-/-- `head` = `get_opts` with `head = true`: the same values, but the payload object the document points
-at must exist (the backend is asked for it with `head`). -/
-def headObject (A : AEAD) (strict : Bool) (B : Backend) (loc : Bytes) :
+/-- `head` = `get_opts` with `head = true` for the document an iteration resolved: the listing values,
+but the payload object the document points at must exist (the backend is asked for it with `head`). -/
+def headWith (A : AEAD) (strict : Bool) (B : Backend) (loc : Bytes) (doc : Except RErr Meta) :
     Except RErr (Nat × Option Bytes × Option Nat) :=
-  match B.metaDoc loc with
+  match doc with
   | .error e => .error e
   | .ok m =>
     match verifyMetadata A strict loc m with
@@ -626,6 +663,20 @@ def headObject (A : AEAD) (strict : Bool) (B : Backend) (loc : Bytes) :
       match B.payload loc m.generation with
       | none => .error .notFound
       | some _ => .ok (m.size, m.eTag, m.committedAtMs)
+
+def headObject (A : AEAD) (strict : Bool) (B : Backend) (loc : Bytes) :
+    Except RErr (Nat × Option Bytes × Option Nat) :=
+  headWith A strict B loc (B.metaDoc loc)
+
+/-- `head` on a warm instance, with the NotFound re-resolve. -/
+def headObjectWarm (A : AEAD) (strict : Bool) (B : Backend) (loc : Bytes) (cached : Option Meta) :
+    Except RErr (Nat × Option Bytes × Option Nat) :=
+  match cached with
+  | none => headObject A strict B loc
+  | some m0 =>
+    match headWith A strict B loc (.ok m0) with
+    | .error .notFound => headObject A strict B loc
+    | r => r
 
 /-! ## An executable ideal AEAD (used by the driver and by the non-vacuity examples)
 
@@ -648,6 +699,12 @@ def forgedLegacyDoc : Meta :=
 
 def forgedBackend : Backend :=
   { metaDoc := fun _ => .ok forgedLegacyDoc, payload := fun _ g => if g = none then some [] else none }
+
+/-- An object written through the toy AEAD and the honest backend holding it (examples). -/
+def exWritten : Bytes × Meta := writeObject toyAEAD 4 [120] [10, 11, 12, 13, 14, 15, 16, 17, 18, 19]
+  ⟨[1, 2, 3, 4, 5, 6, 7, 8, 9, 10, 11, 12], [9, 9, 9, 9, 9, 9, 9, 9, 9, 9, 9, 9], [103], 7, [101]⟩
+
+def exBackend : Backend := { metaDoc := fun _ => .ok exWritten.2, payload := fun _ _ => some exWritten.1 }
 
 def toyFreshEx : Fresh := ⟨[1, 2, 3, 4, 5, 6, 7, 8, 9, 10, 11, 12], [9, 9, 9, 9, 9, 9, 9, 9, 9, 9, 9, 9], [103], 7, [101]⟩
 
